@@ -61,3 +61,17 @@ func TestVerifReplay(t *testing.T) {
 		vWriteJSON(out, res)
 	}
 }
+
+// TestVerifRace runs a racer (concurrent exercise of the operations behind a
+// lock-discipline harness); meaningful only in a -race build.
+func TestVerifRace(t *testing.T) {
+	name := os.Getenv("VERIF_RACE")
+	if name == "" {
+		t.Skip("no racer requested")
+	}
+	f, ok := vRacers[name]
+	if !ok {
+		t.Fatalf("unknown racer %s", name)
+	}
+	f()
+}
